@@ -353,14 +353,21 @@ where
     let restored = T::read(&mut reader);
     let equal = eq.and_then(|eq| eq(value, value).then(|| eq(&restored, value)));
     // some types compare finer than they persist (two in-memory forms of one table)
-    let (mut original_bytes, mut restored_bytes) = (Vec::new(), Vec::new());
+    let mut original_bytes = Vec::new();
     value.write(&mut original_bytes);
-    restored.write(&mut restored_bytes);
+    // what was read back may not even be fit to be written again
+    let restored_bytes = std::panic::catch_unwind(std::panic::AssertUnwindSafe(|| {
+        let mut bytes = Vec::new();
+        restored.write(&mut bytes);
+        bytes
+    }))
+    .ok();
     fontdrasil::verif::readback(
         std::any::type_name::<T>(),
         id,
         equal,
-        original_bytes == restored_bytes,
+        &original_bytes,
+        restored_bytes.as_deref(),
     );
 }
 
